@@ -145,6 +145,29 @@ type caseResult struct {
 	Us      int64  `json:"us"`
 	Alloc   uint64 `json:"alloc"`
 	PeakKiB int64  `json:"peak,omitempty"` // --only mode: growth of the resident-set high-water mark during the call
+	RawUs   int64  `json:"-"`              // parent side: time before scaling by the calibration
+	CalUs   int64  `json:"-"`              // parent side: calibration measured before the case
+}
+
+// Calibration workload: calReps decodes of the calibration template take calRefUs microseconds of CPU time on the
+// reference sandbox when it is otherwise idle (measured; GOMAXPROCS=1).  When the same work takes longer, the machine is
+// slower or busier, and decode times are scaled back by that factor before they are compared with C09's 10 s; a faster
+// machine is not scaled (never stricter than the raw measurement).
+const (
+	calReps  = 4
+	calRefUs = 100000
+)
+
+// chargedScale: factor (<= 1) applied to measured times given the calibration measurements around the case.
+func chargedScale(calBefore, calAfter int64) float64 {
+	c := calBefore
+	if calAfter > c {
+		c = calAfter
+	}
+	if c <= calRefUs {
+		return 1
+	}
+	return float64(calRefUs) / float64(c)
 }
 
 // selfCPUus: user+system CPU time of this process (all threads) in microseconds.
@@ -302,6 +325,24 @@ func runRobustChild(args []string) error {
 	out := bufio.NewWriter(os.Stdout)
 	idx := 0
 	var ms runtime.MemStats
+	// calibration: CPU time of a fixed piece of decoding work (the unedited third-party 128x128 RGB fixture, or the first
+	// JPEG 2000 template).  CPU time is not independent of the load on the machine (shared cores, memory bandwidth): the
+	// parent charges decode time in units of this workload, see chargedScale.
+	calT := 0
+	for i, tp := range tpls {
+		if strings.HasPrefix(tp.Name, "fixture-rgb_u8_128x128") {
+			calT = i
+			break
+		}
+	}
+	calibrate := func() {
+		c0 := selfCPUus()
+		for k := 0; k < calReps; k++ {
+			decodeEntry(tpls[calT].API, tpls[calT].Stream, tpls[calT].Info)
+		}
+		fmt.Fprintf(out, "C %d\n", selfCPUus()-c0)
+	}
+	sinceCal := int64(1 << 40)
 	for in.Scan() {
 		var pl planLine
 		if err := json.Unmarshal(in.Bytes(), &pl); err != nil {
@@ -323,6 +364,10 @@ func runRobustChild(args []string) error {
 				rss0 = procStatusKiB("VmRSS")
 			}
 			// announce the case before running it: if the process dies, the parent knows the culprit
+			if sinceCal > 1_500_000 { // at the start and after every 1.5 s of charged decode time
+				calibrate()
+				sinceCal = 0
+			}
 			c0 := selfCPUus()
 			fmt.Fprintf(out, "B %d %d\n", idx, c0)
 			out.Flush()
@@ -337,6 +382,11 @@ func runRobustChild(args []string) error {
 				us = c
 			}
 			runtime.ReadMemStats(&ms)
+			sinceCal += us
+			if us > 1_000_000 { // bracket every long case by a calibration after it
+				calibrate()
+				sinceCal = 0
+			}
 			cr := caseResult{Idx: idx, Outcome: oc, Site: site, Class: class, Us: us, Alloc: ms.TotalAlloc - a0}
 			if *only > 0 {
 				cr.PeakKiB = max(procStatusKiB("VmHWM")-rss0, 0) + 1
@@ -460,6 +510,9 @@ func runChildPlan(plan []string, tpls []template, repo string, caseTimeout int) 
 	done := 0
 	for done < len(cases) {
 		cmd := exec.Command(self, "robust-child", "--repo", repo, "--skip", fmt.Sprint(done))
+		// one scheduler thread: the CPU time of the child is then the sequential work of the decode (collector included),
+		// whatever else the machine is doing and however many idle cores the collector could otherwise borrow
+		cmd.Env = append(os.Environ(), "GOMAXPROCS=1")
 		stdin, _ := cmd.StdinPipe()
 		stdout, _ := cmd.StdoutPipe()
 		cmd.Stderr = nil
@@ -488,6 +541,8 @@ func runChildPlan(plan []string, tpls []template, repo string, caseTimeout int) 
 		var t0 time.Time
 		var cpu0 int64
 		var lastCharged time.Duration
+		var lastCal int64
+		pendingScale := 0
 		killed := ""
 		// charged(): time charged to the running case so far = min(wall, CPU of the child since the case began)
 		charged := func() time.Duration {
@@ -506,6 +561,17 @@ func runChildPlan(plan []string, tpls []template, repo string, caseTimeout int) 
 				if !ok {
 					break loop
 				}
+				if strings.HasPrefix(l, "C ") {
+					var c int64
+					fmt.Sscanf(l, "C %d", &c)
+					if pendingScale > 0 && pendingScale <= len(cases) { // calibration right after a long case: rescale it
+						r := &results[pendingScale]
+						r.Us = int64(float64(r.RawUs) * chargedScale(r.CalUs, c))
+						pendingScale = 0
+					}
+					lastCal = c
+					continue
+				}
 				if strings.HasPrefix(l, "B ") {
 					cpu0 = 0
 					fmt.Sscanf(l, "B %d %d", &current, &cpu0)
@@ -514,6 +580,11 @@ func runChildPlan(plan []string, tpls []template, repo string, caseTimeout int) 
 				}
 				var cr caseResult
 				if json.Unmarshal([]byte(l), &cr) == nil && cr.Idx >= 1 && cr.Idx <= len(cases) {
+					cr.RawUs, cr.CalUs = cr.Us, lastCal
+					cr.Us = int64(float64(cr.RawUs) * chargedScale(lastCal, 0))
+					if cr.RawUs > 1_000_000 {
+						pendingScale = cr.Idx // the child calibrates again right after a long case
+					}
 					results[cr.Idx] = cr
 					done = cr.Idx
 					current = 0
@@ -525,12 +596,13 @@ func runChildPlan(plan []string, tpls []template, repo string, caseTimeout int) 
 						lim = 1 * time.Second // not worth 11 s: TLC re-checks that the case really is out of C09's scope
 					}
 					// killed when the charged time passes the limit (or after 10x the limit of wall time whatever the load)
-					if time.Since(t0) > lim && (charged() > lim || time.Since(t0) > 10*lim) {
+					scaled := time.Duration(float64(charged()) * chargedScale(lastCal, 0))
+					if time.Since(t0) > lim && (scaled > lim || time.Since(t0) > 10*lim) {
 						killed = "timeout"
 						if cases[current-1].big {
 							killed = "skipped-large"
 						}
-						lastCharged = charged()
+						lastCharged = scaled
 						cmd.Process.Kill()
 						break loop
 					}
